@@ -133,7 +133,7 @@ pub struct NestedCase {
 }
 
 pub fn nested_strategy() -> BoxedStrategy<NestedCase> {
-    (schema_strategy(3, 3), dp_strategy(), 0u8..6, 0u8..5, 0u8..5, prop::bool::weighted(0.3))
+    (schema_strategy(3, 3), dp_strategy(), 0u8..8, 0u8..5, 0u8..5, prop::bool::weighted(0.3))
         .prop_map(|(mut schema, dp, template, inner, outer, inner_private_key)| {
             // the sub-queries read orders: a layout that protects it
             if schema.pu_variant % 4 == 2 {
@@ -155,7 +155,7 @@ impl NestedCase {
         };
         let key = if self.inner_private_key { "pk" } else { "kind" };
         let inner = format!("SELECT {key} AS k, {} AS t FROM orders GROUP BY {key}", agg(self.inner, "x"));
-        match self.template % 6 {
+        match self.template % 8 {
             // DP sub-query joined back with the protected table, aggregated again
             0 => format!("WITH s AS ({inner}) SELECT {} AS q FROM s JOIN orders AS o ON s.k = o.{key} WHERE s.t > 1", agg(self.outer, "o.x")),
             1 => format!("WITH s AS ({inner}) SELECT o.kind AS kind, {} AS q FROM orders AS o JOIN s ON s.k = o.{key} GROUP BY o.kind", agg(self.outer, "o.x")),
@@ -165,6 +165,10 @@ impl NestedCase {
             3 => format!("SELECT k, (t * 2) AS t2 FROM ({inner}) AS s WHERE t > 0"),
             // union of two DP sub-queries
             4 => format!("{inner} UNION SELECT kind AS k, {} AS t FROM orders GROUP BY kind", agg(self.outer, "x")),
+            // self-join of a DP sub-query
+            6 => format!("WITH s AS ({inner}) SELECT a.k AS k, a.t AS t, b.t AS t2 FROM s AS a JOIN s AS b ON a.k = b.k"),
+            // self-join of a protected table
+            7 => format!("SELECT a.x AS x1, b.x AS x2, a.{key} AS k FROM orders AS a JOIN orders AS b ON a.oid = b.oid WHERE b.x > {}", self.outer),
             // DP sub-query joined with the unit table
             _ => format!("WITH s AS ({inner}) SELECT {} AS q FROM users AS us JOIN orders AS o ON us.id = o.uid JOIN s ON s.k = o.{key}", agg(self.outer, "us.a")),
         }
@@ -175,7 +179,7 @@ pub fn check_nested(case: &NestedCase, st: &mut Stats) -> Vec<Fail> {
     st.eval();
     let sql = case.sql();
     let Some(p) = prepare_sql(&case.schema, &sql, &case.dp, st) else {
-        st.class(&format!("template_rejected:{}", case.template % 6));
+        st.class(&format!("template_rejected:{}", case.template % 8));
         if std::env::var("QV_DEBUG").is_ok() {
             let db = case.schema.db();
             let why = match compile(&sql, &db) {
@@ -187,11 +191,11 @@ pub fn check_nested(case: &NestedCase, st: &mut Stats) -> Vec<Fail> {
                 Compiled::Err(e) => format!("not compiled: {e}"),
                 Compiled::Panic(p) => format!("compile panic: {}", p.file_line()),
             };
-            eprintln!("REJ t{} {why} :: {sql}", case.template % 6);
+            eprintln!("REJ t{} {why} :: {sql}", case.template % 8);
         }
         return vec![];
     };
-    st.class(&format!("template:{}", case.template % 6));
+    st.class(&format!("template:{}", case.template % 8));
     let f = check_prepared(&p, &case.dp, false, hash_json(case), st);
     f.into_iter().map(|mut x| { x.key = format!("{}|nested", x.key); x }).collect()
 }
